@@ -97,3 +97,72 @@ pub fn check_bytes(what: &'static str, start: usize, end: usize, data_len: usize
         report(format!("{what}: byte range [{start}, {end}) outside buffer of {data_len} bytes"));
     }
 }
+
+// ---------------------------------------------------------------------------------------------------------
+// Schedule perturbation: yield points in the spawned closures of the multi-threaded entry points.
+//
+// A yield point does nothing (one relaxed atomic load) unless a test harness installed a callback with
+// [`set_yield_hook`].  The callback may log the event and may block the calling thread for as long as it
+// likes, which lets a harness force a chosen interleaving of the worker threads.  Nothing here changes
+// what the library computes.
+
+/// Site: top of the per-output loop body of `execute_bdd_circuit_multi_thread` (item = global output index).
+pub const YIELD_SITE_EVAL: u32 = 1;
+/// Site: before each per-bit preparation of `fhe_uint_prepare_custom_multi_thread` (item = bit index).
+pub const YIELD_SITE_PREPARE: u32 = 2;
+/// Flag or-ed to a site by [`YieldDone`]: worker `thread_idx` left its closure, normally or by a panic (`item` = 0).
+pub const YIELD_DONE: u32 = 0x100;
+/// Flag or-ed to a site by [`yield_spawned`]: the spawning thread has spawned `thread_idx` workers (`item` = 0).
+pub const YIELD_SPAWNED: u32 = 0x200;
+
+/// Callback type of the yield hook: `(site, thread_idx, item)`.
+pub type YieldHook = Box<dyn Fn(u32, usize, usize) + Send + Sync>;
+
+static YIELD_ON: AtomicBool = AtomicBool::new(false);
+static YIELD_HOOK: Mutex<Option<std::sync::Arc<dyn Fn(u32, usize, usize) + Send + Sync>>> = Mutex::new(None);
+
+/// Installs (`Some`) or removes (`None`) the process-global yield callback.
+pub fn set_yield_hook(hook: Option<YieldHook>) {
+    let mut g = YIELD_HOOK.lock().unwrap_or_else(|e| e.into_inner());
+    YIELD_ON.store(hook.is_some(), Ordering::SeqCst);
+    *g = hook.map(std::sync::Arc::from);
+}
+
+/// Calls the installed callback, if any.  The lock is released before the callback runs, so the callback
+/// may block.
+#[inline]
+pub fn yield_point(site: u32, thread_idx: usize, item: usize) {
+    if !YIELD_ON.load(Ordering::Relaxed) {
+        return;
+    }
+    let hook = YIELD_HOOK.lock().unwrap_or_else(|e| e.into_inner()).clone();
+    if let Some(f) = hook {
+        f(site, thread_idx, item);
+    }
+}
+
+/// Announces that the spawning thread has spawned `workers` workers for `site`.
+#[inline]
+pub fn yield_spawned(site: u32, workers: usize) {
+    yield_point(site | YIELD_SPAWNED, workers, 0);
+}
+
+/// Drop guard created at the top of a spawned closure: announces `site | YIELD_DONE` for `thread_idx` when the
+/// worker leaves the closure, also when it unwinds, so that a scheduling callback never waits for a dead worker.
+pub struct YieldDone {
+    site: u32,
+    thread_idx: usize,
+}
+
+impl YieldDone {
+    #[inline]
+    pub fn new(site: u32, thread_idx: usize) -> Self {
+        Self { site, thread_idx }
+    }
+}
+
+impl Drop for YieldDone {
+    fn drop(&mut self) {
+        yield_point(self.site | YIELD_DONE, self.thread_idx, 0);
+    }
+}
